@@ -6,6 +6,7 @@ the schedule monitors (C09, C10, C15) on every stage snapshot.
 -/
 import RSSched.Driver.SchedDump
 import RSSched.Spec.Output
+import RSSched.Model.Swaps
 namespace RSSched.Driver
 open RSSched Spec
 
@@ -87,6 +88,87 @@ def checkPipe (c : Case) : VM Unit := do
     if let some ls := snap "local_search" then
       if objOf ls != prev then vfail "C08,C16" "result-not-last-step" s!"last={showObj prev} result={showObj (objOf ls)}"
   vstat "pipe.steps" steps.length
+  -- correspondence of the stages with the model, each computed from the PREVIOUS OBSERVED snapshot
+  let sameState (a b : Schedule) : List String := Schedule.diffFields a b
+  -- (a) start schedule = from_tours(decoded tours): spawn every hooked tour, types in the order of
+  --     their smallest vehicle id (from_tours iterates a hash map over the types)
+  if let some fl := snap "flow" then
+    let hooked : List (Nat × List (List Nat)) := Id.run do
+      let mut res : List (Nat × List (List Nat)) := []
+      let mut cur : Nat := 0
+      for t in relLines do
+        match t with
+        | ["F", "begin", vt, _] => cur := nat! vt; res := res ++ [(cur, [])]
+        | "F" :: "tour" :: ns => res := res.map (fun (v, l) => if v == cur then (v, l ++ [natList ns]) else (v, l))
+        | _ => pure ()
+      return res
+    let firstId (vt : Nat) : Nat := ((fl.s.vehiclesOfType vt).map (·.idx)).foldl Nat.min 1000000
+    let order := (hooked.map (·.1)).mergeSort (fun a b => firstId a ≤ firstId b)
+    let built : R Schedule := order.foldlM (fun (sch : Schedule) vt =>
+        ((assocGet? hooked vt).getD []).foldlM (fun (sc : Schedule) tour => do
+          let (s', _) ← Schedule.spawnVehicleForPath nw sc vt tour
+          pure s') sch) (Schedule.empty nw)
+    match built with
+    | .ok m =>
+      let fs := sameState m fl.s
+      if !fs.isEmpty then vdiff "C16,C14" "model-from-tours" s!"fields={fs}"
+    | .error e => vdiff "C16,C14" "model-from-tours-faults" s!"{repr e}"
+    -- (b) start = improve_depots(None) of the flow schedule
+    if let some st := snap "start" then
+      match Schedule.improveDepots nw fl.s none with
+      | .ok m =>
+        let fs := sameState m st.s
+        if !fs.isEmpty then vdiff "C16" "model-improve-depots" s!"fields={fs}"
+      | .error e => vdiff "C16" "model-improve-depots-faults" s!"{repr e}"
+  -- (c) local search trajectory: every accepted schedule is a candidate of its predecessor, no
+  --     candidate is strictly better than it, and the result has no strictly better candidate
+  if let some st := snap "start" then
+    let stepSnaps : List SchedObs := (List.range steps.length).filterMap (fun k =>
+      let ls := stageLines s!"step{k}"
+      if ls.isEmpty then none else some (parseSched ls))
+    let objS (x : Schedule) : Int × Int × Int × Int :=
+      (((x.unserved.1 + x.unserved.2 : Nat) : Int), x.violation, (x.vehicles.length : Int), (x.costs : Int))
+    let mut prevS := st.s
+    let mut budget := 6    -- neighbourhood enumerations per case (cost control)
+    for cur in stepSnaps do
+      if budget > 0 then
+        budget := budget - 1
+        match Swaps.neighborsOf nw (some 10800) (some 600) prevS .noSwap with
+        | .ok cands =>
+          if !(cands.any (fun c => (Schedule.diffFields c.sched cur.s).isEmpty)) then
+            vdiff "C08,C11" "accepted-step-not-a-model-candidate" s!"step objective={showObj (objS cur.s)}"
+          if cands.any (fun c => lexLt4 (objS c.sched) (objS cur.s)) then
+            vfail "C08" "accepted-step-not-minimal" s!"accepted={showObj (objS cur.s)}"
+        | .error e => vdiff "C08,C11" "model-neighbourhood-faults" s!"{repr e}"
+      prevS := cur.s
+    if nw.maintNodes.length > 0 && budget > 0 then
+      if let some ls := snap "local_search" then
+        match Swaps.neighborsOf nw (some 10800) (some 600) ls.s .noSwap with
+        | .ok cands =>
+          if cands.any (fun c => lexLt4 (objS c.sched) (objS ls.s)) then
+            vfail "C08" "result-is-not-a-fixpoint" s!"result={showObj (objS ls.s)}"
+          vstat "pipe.fixpoint-candidates" cands.length
+        | .error e => vdiff "C08,C11" "model-neighbourhood-faults" s!"{repr e}"
+  -- (d) final = reassign_end_depots_consistent_with_transitions(transitions stage);
+  --     transitions stage = set_next_day_transitions(local-search result, optimised transitions)
+  match snap "local_search", snap "transitions", snap "final" with
+  | some ls, some tr, some fin =>
+    let fs1 := sameState (Schedule.setNextDayTransitions ls.s tr.s.transitions) tr.s
+    if !fs1.isEmpty then vdiff "C16" "model-set-transitions" s!"fields={fs1}"
+    match Schedule.reassignEndDepotsConsistent nw tr.s with
+    | .ok m =>
+      let fs := sameState m fin.s
+      if !fs.isEmpty then vdiff "C16,C05" "model-align-end-depots" s!"fields={fs}"
+    | .error e => vdiff "C16" "model-align-end-depots-faults" s!"{repr e}"
+    -- C15: the optimiser's result is not worse than what it was given: (violation, counter)
+    for vt in nw.typeIdxs do
+      let a := ls.s.transitionOf vt
+      let b := tr.s.transitionOf vt
+      if b.totalViolation > a.totalViolation || (b.totalViolation == a.totalViolation && b.totalCounter > a.totalCounter) then
+        vfail "C15" "transition-optimisation-worsens" s!"type={vt} before=({a.totalViolation},{a.totalCounter}) after=({b.totalViolation},{b.totalCounter})"
+      if !(sameVehSet (a.cycles.flatMap (·.vehicles)) (b.cycles.flatMap (·.vehicles))) then
+        vfail "C15" "transition-optimisation-changes-vehicle-set" s!"type={vt}"
+  | _, _, _ => pure ()
   if rc != "ok" then return
   -- the returned JSON
   let out : Output := (relLines.filterMap (fun t => if t.head? == some "J" then some (t.drop 1) else none)).foldl outLine {}
